@@ -250,11 +250,15 @@ def jobs(tier):
     for (name, make, opts) in ALL:
         if opts.get('kind') in ('value', 'noraise', 'dict'):
             continue
-        for (R, L, nits, nsym) in cfgs_for(name.startswith(CORE), _stateful(name)):
+        cfgs = cfgs_for(name.startswith(CORE), _stateful(name))
+        if not q and name.startswith(('sort-', 'cache')):
+            cfgs = cfgs + [(2, 7, 2, -1)]          # -1: any iterator may be abandoned and re-created (4 actions per step)
+        for (R, L, nits, nsym) in cfgs:
             core = name.startswith(CORE)
-            out.append(dict(name='view/%s/R=%d/L=%d/its=%d/sym=%d' % (name, R, L, nits, nsym), func='catalogue_view',
-                            params=dict(name=name, R=R, L=L, nits=nits, nsym=nsym,
-                                        renew0=name.startswith(('sort-', 'cache')) and nits == 2 and L <= 6),
+            out.append(dict(name='view/%s/R=%d/L=%d/its=%d/sym=%d%s' % (name, R, L, nits, max(nsym, 0), '/renew-any' if nsym == -1 else ''),
+                            func='catalogue_view',
+                            params=dict(name=name, R=R, L=L, nits=nits, nsym=max(nsym, 0),
+                                        renew0=name.startswith(('sort-', 'cache')) and nits == 2 and (L <= 6 or nsym == -1)),
                             budget=BQ if q else BT, validate_every=1 if q else 4, per_path=20))
     for kind in IO_KINDS:
         core = kind.startswith(('fromdicts-generator', 'csv-sort'))
